@@ -190,6 +190,63 @@ def run(pm, ctx):
             elif not evs:
                 ctx.undecided_site("C02-b", site, f"abstract result is {res!r}")
     wasserstein_duals(pm, ctx)
+    floored_distance_masks(pm, ctx)
+
+
+def floored_distance_masks(pm, ctx):
+    """where a distance is sqrt(max(., 0)) the score is locally constant when the distance is 0: its gradient entries must be
+    zeroed there (a guarded division alone leaves tau/1 in those entries)"""
+    ctx.rule("C02-f", "a distance floored at 0 is locally constant there: the gradient must be exactly 0 for zero distances", floor=2)
+    ci, f = evaluate_func(pm, "MMDGEMINI")
+    unit, qn = ci.unit, "MMDGEMINI.evaluate"
+    floored = [s_ for s_ in ast.walk(f) if isinstance(s_, ast.Assign) and isinstance(s_.targets[0], ast.Name) and isinstance(s_.value, ast.Call)
+               and (call_name(s_.value) or "").split(".")[-1] == "sqrt" and s_.value.args and isinstance(s_.value.args[0], ast.Call)
+               and (call_name(s_.value.args[0]) or "").split(".")[-1] == "maximum"]
+    if not floored:
+        ctx.unrecognised("C02-f", qn, "no distance of the form sqrt(maximum(., 0))")
+        return
+    for d in floored:
+        dn = d.targets[0].id
+        # the gradient block controlled by return_grad in the same ovo branch
+        par = d._parent
+        seq = par.body if any(x is d for x in getattr(par, "body", [])) else getattr(par, "orelse", [])
+        grad_if = [s_ for x in seq for s_ in ast.walk(x) if isinstance(s_, ast.If) and norm_src(s_.test) == "return_grad"]
+        site = f"{qn}: zero {dn} ({'ovo' if any(isinstance(p_, ast.If) and norm_src(p_.test) == 'self.ovo' and any(x is d for x in p_.body) for p_ in _parents(d)) else 'ova'})"
+        if not grad_if:
+            ctx.unrecognised("C02-f", site, "no gradient block next to the floored distance")
+            continue
+        g = grad_if[0]
+        masks = {}
+        for s_ in ast.walk(g):
+            if isinstance(s_, ast.Assign) and isinstance(s_.targets[0], ast.Name) and isinstance(s_.value, ast.Compare) and norm_src(s_.value) in (f"{dn} == 0", f"0 == {dn}"):
+                masks[s_.targets[0].id] = s_
+        zeroed = []
+        for s_ in ast.walk(g):
+            if isinstance(s_, ast.Assign) and isinstance(s_.targets[0], ast.Subscript) and norm_src(s_.value) in ("0", "0.0"):
+                idx = norm_src(s_.targets[0].slice)
+                if f"{dn} == 0" in idx or any(m_ in [n.id for n in ast.walk(s_.targets[0].slice) if isinstance(n, ast.Name)] for m_ in masks):
+                    zeroed.append(s_)
+            if isinstance(s_, (ast.Assign, ast.AugAssign)) and any(t in norm_src(s_.value) for t in (f"({dn} != 0)", f"({dn} > 0)", f"~({dn} == 0)")):
+                zeroed.append(s_)
+        divides = [n for n in ast.walk(g) if (isinstance(n, ast.BinOp) and isinstance(n.op, ast.Div) and dn in [x.id for x in ast.walk(n.right) if isinstance(x, ast.Name)])
+                   or (isinstance(n, ast.AugAssign) and isinstance(n.op, ast.Div) and dn in [x.id for x in ast.walk(n.value) if isinstance(x, ast.Name)])]
+        if zeroed:
+            ctx.ok("C02-f", site, norm_src(zeroed[0])[:80])
+        elif divides:
+            st = divides[0]
+            while not isinstance(st, ast.stmt):
+                st = st._parent
+            ctx.violation("C02-f", unit.relpath, qn, norm_src(st)[:160], f"the gradient divides by the floored distance {dn} (guarded or not) but is never zeroed where {dn} == 0: "
+                          f"a clamped (locally constant) distance yields a non-zero gradient", line=st.lineno, site=site)
+        else:
+            ctx.unrecognised("C02-f", site, f"the gradient block neither divides by {dn} nor masks it")
+
+
+def _parents(n):
+    p = getattr(n, "_parent", None)
+    while p is not None:
+        yield p
+        p = getattr(p, "_parent", None)
 
 
 def wasserstein_duals(pm, ctx):
@@ -328,6 +385,14 @@ def controls(pm, tier):
                 return {ci.unit.relpath: replace_node(ci.unit, n.value, norm_src(n.value).replace("'u'", "'v'"))}
         return None
     out.append({"name": "u_bar built from the v potential", "rule": "C02-e", "apply": swapped_duals})
+
+    def unmasked_zero_distance(pm_):
+        ci, f = evaluate_func(pm_, "MMDGEMINI")
+        a = "                gradient[:, delta_mask] = 0\n"
+        if a not in ci.unit.src:
+            return None
+        return {ci.unit.relpath: ci.unit.src.replace(a, "", 1)}
+    out.append({"name": "MMD OvA gradient not zeroed at zero distances", "rule": "C02-f", "apply": unmasked_zero_distance})
 
     def bare_return(pm_):
         ci, f = evaluate_func(pm_, "TVGEMINI")
